@@ -41,8 +41,10 @@ def run(tier):
             c["goals"] = [[(xv, 1)], [(xv, 2)]] + third + [g for g in c["goals"] if g not in ([(xv, 1)], [(xv, 2)], [(xv, 3)])][:2]
         tasks.append({"fn": "harness.tasks.afterloop:after_loop",
                       "args": {"text": c["text_used"], "goals": [[[x, k] for x, k in g] for g in c["goals"]],
-                               "subs": polar_subs(c), "nmax": nmax, "extras_var": xv, "extras_third": (not quick) or bool(c.get("corpus"))}})
-    outs = run_tasks(tasks, timeout=75 if quick else 240, progress=50) if lean_ok else []
+                               "subs": polar_subs(c), "nmax": nmax, "extras_var": xv, "extras_third": (not quick) or bool(c.get("corpus")),
+                               "extras_budget": 90 if c.get("corpus") else (30 if quick else 60)},
+                      "timeout": 200 if c.get("corpus") else (90 if quick else 240)})
+    outs = run_tasks(tasks, timeout=90 if quick else 240, progress=50) if lean_ok else []
     reqs = []
     for c in cases:
         reqs.append({"op": "moments", "program": H.program_json(c["program"]), "sigma0": lean_sigma0(c),
@@ -137,6 +139,14 @@ def run(tier):
         xv = c.get("_extras_var")
         if not xv or out["status"] != "ok" or not out["result"].get("accepted") or "extras" not in out["result"]:
             continue
+        ex_ = out["result"]["extras"]
+        if ex_.get("central2", ("missing",))[0] == "q" and ex_.get("cumulant2", ("missing",))[0] == "q":
+            # the second central moment and the second cumulant are both the variance at loop exit
+            chk.count("after-loop-extra:central2-vs-cumulant2")
+            if Fr(ex_["central2"][1]) != Fr(ex_["cumulant2"][1]):
+                chk.violation(f"after-loop c2({xv}) = {ex_['central2'][1]} but k2({xv}) = {ex_['cumulant2'][1]}: both are the variance at loop exit",
+                              {"case": pipeline.case_to_json(c), "text": c["text_used"], "goal": f"c2({xv}) / k2({xv})",
+                               "reported": ex_, "how": "GoalsAction.handle_central_moment_goal / handle_cumulant_goal with --after_loop"})
         L = [raw_limits.get((id(c), json.dumps([[xv, k]]))) for k in (1, 2, 3)]
         if L[0] is None or L[1] is None or L[0] == INF:
             continue
